@@ -370,4 +370,420 @@ theorem parseLit_str (fuel : Nat) (s : String) (rest : List Char) (hr : Term res
       rfl
 
 
+/-! ### Inversion of `marshalValue` -/
+
+section Inv
+variable {ι : Type} (d : SchemaDef ι)
+
+theorem marshal_null (t : TRef) (s : String) (h : marshalValue d t .null = some s) : s = "null" := by
+  simp [marshalValue] at h; exact h.symm
+
+theorem marshal_int (t : TRef) (i : Int) (s : String) (h : marshalValue d t (.int i) = some s) : s = toString i := by
+  unfold marshalValue at h
+  repeat' split at h
+  all_goals simp at h
+  all_goals (try exact h.symm)
+
+theorem marshal_str (t : TRef) (x : String) (s : String) (h : marshalValue d t (.str x) = some s) : s = jsonString x := by
+  unfold marshalValue at h
+  repeat' split at h
+  all_goals simp at h
+  all_goals (try exact h.symm)
+
+theorem marshal_bool (t : TRef) (b : Bool) (s : String) (h : marshalValue d t (.bool b) = some s) :
+    s = (if b then "true" else "false") := by
+  unfold marshalValue at h
+  repeat' split at h
+  all_goals simp at h
+  all_goals (try (subst h; simp_all))
+
+theorem marshal_float (t : TRef) (x : String) (s : String) (h : marshalValue d t (.float x) = some s) : s = x := by
+  unfold marshalValue at h
+  repeat' split at h
+  all_goals simp at h
+  all_goals (try exact h.symm)
+
+theorem marshal_enum (t : TRef) (n : String) (s : String) (h : marshalValue d t (.enum n) = some s) :
+    s = n ∧ ∃ td ∈ d.types, ∃ v ∈ td.values, v.name = n := by
+  unfold marshalValue at h
+  split at h
+  · rename_i m _
+    split at h
+    · rename_i td hl
+      split at h
+      · split at h
+        · rename_i hany
+          simp at h
+          refine ⟨h.symm, td, (lookup_some' hl), ?_⟩
+          simp only [List.any_eq_true, beq_iff_eq] at hany
+          exact hany
+        · simp at h
+      · simp at h
+    · simp at h
+  · simp at h
+where
+  lookup_some' {n : String} {t : TypeDef ι} (h : d.lookup n = some t) : t ∈ d.types := by
+    unfold SchemaDef.lookup at h
+    exact List.mem_of_find?_eq_some h
+
+theorem marshal_list (t : TRef) (vs : List Value) (s : String) (h : marshalValue d t (.list vs) = some s) :
+    ∃ item parts, marshalList d item vs = some parts ∧ s = "[" ++ joinWith ", " parts ++ "]" := by
+  unfold marshalValue at h
+  split at h
+  · rename_i item _
+    cases hp : marshalList d item vs with
+    | none => simp [hp] at h
+    | some parts => simp [hp] at h; exact ⟨item, parts, hp, h.symm⟩
+  · simp at h
+
+theorem marshal_obj (t : TRef) (fs : List (String × Value)) (s : String) (h : marshalValue d t (.obj fs) = some s) :
+    ∃ td ∈ d.types, ∃ parts, marshalFields d td.inputs fs = some parts ∧ s = "{" ++ joinWith ", " parts ++ "}" := by
+  unfold marshalValue at h
+  split at h
+  · rename_i m _
+    split at h
+    · rename_i td hl
+      split at h
+      · cases hp : marshalFields d td.inputs fs with
+        | none => simp [hp] at h
+        | some parts =>
+          simp [hp] at h
+          exact ⟨td, List.mem_of_find?_eq_some hl, parts, hp, h.symm⟩
+      · simp at h
+    · simp at h
+  · simp at h
+
+theorem marshalList_cons (item : TRef) (v : Value) (vs : List Value) (parts : List String)
+    (h : marshalList d item (v :: vs) = some parts) :
+    ∃ s ps, marshalValue d item v = some s ∧ marshalList d item vs = some ps ∧ parts = s :: ps := by
+  unfold marshalList at h
+  split at h
+  · rename_i s ps hs hps
+    simp at h
+    exact ⟨s, ps, hs, hps, h.symm⟩
+  · simp at h
+
+theorem marshalList_nil (item : TRef) (parts : List String) (h : marshalList d item [] = some parts) : parts = [] := by
+  simp [marshalList] at h; exact h
+
+theorem marshalFields_nil (inputs : List (InputValueDef ι)) (parts : List String)
+    (h : marshalFields d inputs [] = some parts) : parts = [] := by
+  simp [marshalFields] at h; exact h
+
+theorem marshalFields_cons (inputs : List (InputValueDef ι)) (k : String) (v : Value) (fs : List (String × Value))
+    (parts : List String) (h : marshalFields d inputs ((k, v) :: fs) = some parts) :
+    ∃ f ∈ inputs, f.name = k ∧ ∃ s ps, marshalValue d f.type.ref v = some s ∧ marshalFields d inputs fs = some ps
+      ∧ parts = (k ++ ": " ++ s) :: ps := by
+  unfold marshalFields at h
+  split at h
+  · simp at h
+  · rename_i f hf
+    split at h
+    · rename_i s ps hs hps
+      simp at h
+      have hmem := List.mem_of_find?_eq_some hf
+      have hname := List.find?_some hf
+      simp at hname
+      exact ⟨f, hmem, hname, s, ps, hs, hps, h.symm⟩
+    · simp at h
+
+end Inv
+
+
+/-! ### Where a printed value starts -/
+
+def StartOk (c : Char) : Prop := isIgnored c = false ∧ c.toNat ≠ 93 ∧ c.toNat ≠ 125
+
+instance (c : Char) : Decidable (StartOk c) := by unfold StartOk; infer_instance
+
+theorem startOk_nameStart {c : Char} (h : isNameStart c = true) : StartOk c := by
+  refine ⟨not_ignored_of_nameStart h, ?_, ?_⟩ <;>
+  · simp [isNameStart, isLetter] at h
+    omega
+
+theorem startOk_digit {c : Char} (h : isDigit c = true) : StartOk c := by
+  refine ⟨not_ignored_of_digit h, ?_, ?_⟩ <;>
+  · simp [isDigit] at h
+    omega
+
+def NamesOk {ι : Type} (d : SchemaDef ι) : Prop := namesOk d = true
+
+theorem namesOk_enum {ι : Type} {d : SchemaDef ι} (h : NamesOk d) {td : TypeDef ι} (htd : td ∈ d.types)
+    {v : EnumValueDef ι} (hv : v ∈ td.values) :
+    validName v.name.toList = true ∧ v.name ≠ "true" ∧ v.name ≠ "false" ∧ v.name ≠ "null" := by
+  unfold NamesOk namesOk at h
+  simp only [List.all_eq_true, Bool.and_eq_true, bne_iff_ne, ne_eq] at h
+  have := (h td htd).1 v hv
+  exact ⟨this.1.1.1, this.1.1.2, this.1.2, this.2⟩
+
+theorem namesOk_input {ι : Type} {d : SchemaDef ι} (h : NamesOk d) {td : TypeDef ι} (htd : td ∈ d.types)
+    {a : InputValueDef ι} (ha : a ∈ td.inputs) : validName a.name.toList = true := by
+  unfold NamesOk namesOk at h
+  simp only [List.all_eq_true, Bool.and_eq_true] at h
+  exact (h td htd).2 a ha
+
+theorem validName_head {n : List Char} (h : validName n = true) : ∃ c cs, n = c :: cs ∧ isNameStart c = true := by
+  cases n with
+  | nil => simp [validName] at h
+  | cons c cs =>
+    simp only [validName, Bool.and_eq_true] at h
+    exact ⟨c, cs, rfl, h.1⟩
+
+theorem marshal_head {ι : Type} (d : SchemaDef ι) (hn : NamesOk d) (t : TRef) (v : Value) (s : String)
+    (hc : covered v = true) (h : marshalValue d t v = some s) :
+    ∃ c cs, s.toList = c :: cs ∧ StartOk c := by
+  cases v with
+  | null => rw [marshal_null d t s h]; exact ⟨'n', _, rfl, by decide⟩
+  | int i =>
+    rw [marshal_int d t i s h]
+    cases i with
+    | ofNat n =>
+      have hs : (toString (Int.ofNat n)).toList = Nat.toDigits 10 n := toString_nat_toList n
+      obtain ⟨dd, ds, hd, _⟩ := toDigits_head n
+      refine ⟨dd, ds, by rw [hs, hd], startOk_digit (toDigits_all_digits n dd (by rw [hd]; exact List.mem_cons_self))⟩
+    | negSucc m =>
+      refine ⟨'-', (toString (m + 1)).toList, ?_, by decide⟩
+      show ("-" ++ toString (m + 1)).toList = _
+      rw [String.toList_append]; rfl
+  | float x => simp [covered] at hc
+  | str x => rw [marshal_str d t x s h, jsonString_toList]; exact ⟨'"', _, rfl, by decide⟩
+  | bool b =>
+    rw [marshal_bool d t b s h]
+    cases b
+    · exact ⟨'f', _, rfl, by decide⟩
+    · exact ⟨'t', _, rfl, by decide⟩
+  | «enum» n =>
+    obtain ⟨hs, td, htd, ev, hev, hname⟩ := marshal_enum d t n s h
+    have := (namesOk_enum hn htd hev).1
+    rw [hname] at this
+    obtain ⟨c, cs, hcs, hstart⟩ := validName_head this
+    exact ⟨c, cs, by rw [hs, hcs], startOk_nameStart hstart⟩
+  | list vs =>
+    obtain ⟨item, parts, _, hs⟩ := marshal_list d t vs s h
+    refine ⟨'[', (joinWith ", " parts ++ "]").toList, ?_, by decide⟩
+    rw [hs, String.append_assoc, String.toList_append]; rfl
+  | obj fs =>
+    obtain ⟨td, _, parts, _, hs⟩ := marshal_obj d t fs s h
+    refine ⟨'{', (joinWith ", " parts ++ "}").toList, ?_, by decide⟩
+    rw [hs, String.append_assoc, String.toList_append]; rfl
+
+
+/-! ### Separators -/
+
+/-- What follows the first of the printed parts: the end marker, or `", "` and the remaining parts. -/
+def sepTail (ps : List String) (X : List Char) : List Char :=
+  match ps with
+  | [] => X
+  | _ :: _ => ',' :: ' ' :: ((joinWith ", " ps).toList ++ X)
+
+theorem joinWith_cons_toList (s : String) (ps : List String) (X : List Char) :
+    (joinWith ", " (s :: ps)).toList ++ X = s.toList ++ sepTail ps X := by
+  cases ps with
+  | nil => simp [joinWith, sepTail]
+  | cons p ps' =>
+    simp only [joinWith, sepTail, String.toList_append, List.append_assoc]
+    rfl
+
+theorem term_cons {c : Char} {r : List Char} (h : isNameCont c = false ∧ c.toNat ≠ 46 ∧ c.toNat ≠ 34) : Term (c :: r) := by
+  intro x hx
+  simp at hx
+  subst hx
+  exact h
+
+theorem term_sepTail (ps : List String) (c : Char) (r : List Char)
+    (h : isNameCont c = false ∧ c.toNat ≠ 46 ∧ c.toNat ≠ 34) : Term (sepTail ps (c :: r)) := by
+  cases ps with
+  | nil => exact term_cons h
+  | cons p ps' => exact term_cons (by decide)
+
+theorem parseLit_skip1 (f : Nat) (X : List Char) : parseLit f (' ' :: X) = parseLit f X := by
+  cases f with
+  | zero => simp [parseLit]
+  | succ f =>
+    rw [parseLit, parseLit]
+    have : skipIgnored (' ' :: X) = skipIgnored X := by simp [skipIgnored, isIgnored]
+    rw [this]
+
+theorem parseItems_skip2 (f : Nat) (X : List Char) (acc : List Lit) :
+    parseItems f (',' :: ' ' :: X) acc = parseItems f X acc := by
+  cases f with
+  | zero => simp [parseItems]
+  | succ f =>
+    rw [parseItems, parseItems]
+    have : skipIgnored (',' :: ' ' :: X) = skipIgnored X := by simp [skipIgnored, isIgnored]
+    rw [this]
+
+theorem parseFields_skip2 (f : Nat) (X : List Char) (acc : List (List Char × Lit)) :
+    parseFields f (',' :: ' ' :: X) acc = parseFields f X acc := by
+  cases f with
+  | zero => simp [parseFields]
+  | succ f =>
+    rw [parseFields, parseFields]
+    have : skipIgnored (',' :: ' ' :: X) = skipIgnored X := by simp [skipIgnored, isIgnored]
+    rw [this]
+
+theorem parseItems_sepTail (f : Nat) (ps : List String) (X : List Char) (acc : List Lit) :
+    parseItems f (sepTail ps X) acc = parseItems f ((joinWith ", " ps).toList ++ X) acc := by
+  cases ps with
+  | nil => simp [sepTail, joinWith]
+  | cons p ps' => simp only [sepTail]; rw [parseItems_skip2]
+
+theorem parseFields_sepTail (f : Nat) (ps : List String) (X : List Char) (acc : List (List Char × Lit)) :
+    parseFields f (sepTail ps X) acc = parseFields f ((joinWith ", " ps).toList ++ X) acc := by
+  cases ps with
+  | nil => simp [sepTail, joinWith]
+  | cons p ps' => simp only [sepTail]; rw [parseFields_skip2]
+
+
+/-! ### The printed form parses back -/
+
+theorem string_toList_ne {a b : String} (h : a ≠ b) : a.toList ≠ b.toList := by
+  intro he
+  exact h (String.ext he)
+
+mutual
+  theorem parse_marshal {ι : Type} (d : SchemaDef ι) (hn : NamesOk d) :
+      ∀ (v : Value) (t : TRef) (s : String) (fuel : Nat) (rest : List Char),
+        covered v = true → marshalValue d t v = some s → need v ≤ fuel → Term rest →
+        parseLit fuel (s.toList ++ rest) = some (litOf v, rest)
+    | .null, t, s, fuel, rest, _, hm, hf, hr => by
+      obtain ⟨f, rfl⟩ : ∃ f, fuel = f + 1 := ⟨fuel - 1, by simp [need] at hf; omega⟩
+      rw [marshal_null d t s hm, parseLit_name f "null".toList rest (by decide) hr]
+      rfl
+    | .int i, t, s, fuel, rest, _, hm, hf, hr => by
+      obtain ⟨f, rfl⟩ : ∃ f, fuel = f + 1 := ⟨fuel - 1, by simp [need] at hf; omega⟩
+      rw [marshal_int d t i s hm, parseLit_int f i rest hr]
+      rfl
+    | .float x, t, s, fuel, rest, hc, _, _, _ => by simp [covered] at hc
+    | .str x, t, s, fuel, rest, hc, hm, hf, hr => by
+      obtain ⟨f, rfl⟩ : ∃ f, fuel = f + 1 := ⟨fuel - 1, by simp [need] at hf; omega⟩
+      have hx : ∀ c ∈ x.toList, c.toNat ≤ 0xFFFF := by
+        simpa [covered, List.all_eq_true] using hc
+      rw [marshal_str d t x s hm, parseLit_str f x rest hr hx]
+      rfl
+    | .bool b, t, s, fuel, rest, _, hm, hf, hr => by
+      obtain ⟨f, rfl⟩ : ∃ f, fuel = f + 1 := ⟨fuel - 1, by simp [need] at hf; omega⟩
+      rw [marshal_bool d t b s hm]
+      cases b
+      · rw [show (if false = true then "true" else "false") = "false" from rfl,
+            parseLit_name f "false".toList rest (by decide) hr]
+        rfl
+      · rw [show (if true = true then "true" else "false") = "true" from rfl,
+            parseLit_name f "true".toList rest (by decide) hr]
+        rfl
+    | .enum n, t, s, fuel, rest, _, hm, hf, hr => by
+      obtain ⟨f, rfl⟩ : ∃ f, fuel = f + 1 := ⟨fuel - 1, by simp [need] at hf; omega⟩
+      obtain ⟨hs, td, htd, ev, hev, hname⟩ := marshal_enum d t n s hm
+      have hok := namesOk_enum hn htd hev
+      rw [hname] at hok
+      rw [hs, parseLit_name f n.toList rest hok.1 hr]
+      have h1 : n.toList ≠ "true".toList := string_toList_ne hok.2.1
+      have h2 : n.toList ≠ "false".toList := string_toList_ne hok.2.2.1
+      have h3 : n.toList ≠ "null".toList := string_toList_ne hok.2.2.2
+      rw [if_neg h1, if_neg h2, if_neg h3]
+      rfl
+    | .list vs, t, s, fuel, rest, hc, hm, hf, hr => by
+      obtain ⟨f, rfl⟩ : ∃ f, fuel = f + 1 := ⟨fuel - 1, by simp [need] at hf; omega⟩
+      obtain ⟨item, parts, hp, hs⟩ := marshal_list d t vs s hm
+      have hcl : coveredList vs = true := by simpa [covered] using hc
+      have hfl : needList vs ≤ f := by simp [need] at hf; omega
+      have := parse_marshalList d hn vs item parts f [] rest hcl hp hfl
+      rw [hs, parseLit]
+      have htxt : ("[" ++ joinWith ", " parts ++ "]").toList ++ rest
+          = '[' :: ((joinWith ", " parts).toList ++ ']' :: rest) := by
+        simp only [String.toList_append, List.append_assoc]
+        rfl
+      rw [htxt, skipIgnored_cons_of_not (by decide)]
+      simp only [show ('[' : Char).toNat = 91 from rfl, if_true]
+      rw [this]
+      simp [litOf]
+    | .obj fs, t, s, fuel, rest, hc, hm, hf, hr => by
+      obtain ⟨f, rfl⟩ : ∃ f, fuel = f + 1 := ⟨fuel - 1, by simp [need] at hf; omega⟩
+      obtain ⟨td, htd, parts, hp, hs⟩ := marshal_obj d t fs s hm
+      have hcl : coveredFields fs = true := by simpa [covered] using hc
+      have hfl : needFields fs ≤ f := by simp [need] at hf; omega
+      have hin : ∀ a ∈ td.inputs, validName a.name.toList = true := fun a ha => namesOk_input hn htd ha
+      have := parse_marshalFields d hn td.inputs hin fs parts f [] rest hcl hp hfl
+      rw [hs, parseLit]
+      have htxt : ("{" ++ joinWith ", " parts ++ "}").toList ++ rest
+          = '{' :: ((joinWith ", " parts).toList ++ '}' :: rest) := by
+        simp only [String.toList_append, List.append_assoc]
+        rfl
+      rw [htxt, skipIgnored_cons_of_not (by decide)]
+      simp only [show ('{' : Char).toNat = 123 from rfl, show (123 : Nat) ≠ 91 from by decide, if_false, if_true]
+      rw [this]
+      simp [litOf]
+  theorem parse_marshalList {ι : Type} (d : SchemaDef ι) (hn : NamesOk d) :
+      ∀ (vs : List Value) (item : TRef) (parts : List String) (fuel : Nat) (acc : List Lit) (rest : List Char),
+        coveredList vs = true → marshalList d item vs = some parts → needList vs ≤ fuel →
+        parseItems fuel ((joinWith ", " parts).toList ++ ']' :: rest) acc
+          = some (Lit.list (acc.reverse ++ litOfList vs), rest)
+    | [], item, parts, fuel, acc, rest, _, hm, hf => by
+      obtain ⟨f, rfl⟩ : ∃ f, fuel = f + 1 := ⟨fuel - 1, by simp [needList] at hf; omega⟩
+      rw [marshalList_nil d item parts hm, parseItems]
+      simp [joinWith, skipIgnored, isIgnored, litOfList]
+    | v :: vs, item, parts, fuel, acc, rest, hc, hm, hf => by
+      obtain ⟨f, rfl⟩ : ∃ f, fuel = f + 1 := ⟨fuel - 1, by simp [needList] at hf; omega⟩
+      obtain ⟨s, ps, hs, hps, rfl⟩ := marshalList_cons d item v vs parts hm
+      have hcv : covered v = true ∧ coveredList vs = true := by simpa [coveredList] using hc
+      have hfv : need v ≤ f ∧ needList vs ≤ f := by simp [needList] at hf; omega
+      obtain ⟨c, cs, hcs, hstart⟩ := marshal_head d hn item v s hcv.1 hs
+      have hterm : Term (sepTail ps (']' :: rest)) := term_sepTail ps ']' rest (by decide)
+      have hv := parse_marshal d hn v item s f (sepTail ps (']' :: rest)) hcv.1 hs hfv.1 hterm
+      have hrest := parse_marshalList d hn vs item ps f (litOf v :: acc) rest hcv.2 hps hfv.2
+      rw [joinWith_cons_toList, parseItems, hcs, List.cons_append, skipIgnored_cons_of_not hstart.1]
+      simp only [hstart.2.1, if_false]
+      rw [← List.cons_append, ← hcs, hv]
+      simp only
+      rw [parseItems_sepTail, hrest]
+      simp [litOfList]
+  theorem parse_marshalFields {ι : Type} (d : SchemaDef ι) (hn : NamesOk d) (inputs : List (InputValueDef ι))
+      (hin : ∀ a ∈ inputs, validName a.name.toList = true) :
+      ∀ (fs : List (String × Value)) (parts : List String) (fuel : Nat) (acc : List (List Char × Lit)) (rest : List Char),
+        coveredFields fs = true → marshalFields d inputs fs = some parts → needFields fs ≤ fuel →
+        parseFields fuel ((joinWith ", " parts).toList ++ '}' :: rest) acc
+          = some (Lit.obj (acc.reverse ++ litOfFields fs), rest)
+    | [], parts, fuel, acc, rest, _, hm, hf => by
+      obtain ⟨f, rfl⟩ : ∃ f, fuel = f + 1 := ⟨fuel - 1, by simp [needFields] at hf; omega⟩
+      rw [marshalFields_nil d inputs parts hm, parseFields]
+      simp [joinWith, skipIgnored, isIgnored, litOfFields]
+    | (k, v) :: fs, parts, fuel, acc, rest, hc, hm, hf => by
+      obtain ⟨f, rfl⟩ : ∃ f, fuel = f + 1 := ⟨fuel - 1, by simp [needFields] at hf; omega⟩
+      obtain ⟨fd, hfd, hname, s, ps, hs, hps, rfl⟩ := marshalFields_cons d inputs k v fs parts hm
+      have hcv : covered v = true ∧ coveredFields fs = true := by simpa [coveredFields] using hc
+      have hfv : need v ≤ f ∧ needFields fs ≤ f := by simp [needFields] at hf; omega
+      have hk : validName k.toList = true := by rw [← hname]; exact hin fd hfd
+      obtain ⟨c, cs, hkc, hstart⟩ := validName_head hk
+      have hterm : Term (sepTail ps ('}' :: rest)) := term_sepTail ps '}' rest (by decide)
+      have hv := parse_marshal d hn v fd.type.ref s f (sepTail ps ('}' :: rest)) hcv.1 hs hfv.1 hterm
+      have hrest := parse_marshalFields d hn inputs hin fs ps f ((k.toList, litOf v) :: acc) rest hcv.2 hps hfv.2
+      -- the text: k ": " s tail
+      have htxt : (joinWith ", " ((k ++ ": " ++ s) :: ps)).toList ++ '}' :: rest
+          = k.toList ++ (':' :: ' ' :: (s.toList ++ sepTail ps ('}' :: rest))) := by
+        rw [joinWith_cons_toList]
+        simp only [String.toList_append, List.append_assoc]
+        rfl
+      have hall : ∀ x ∈ k.toList, isNameCont x = true := by
+        rw [hkc] at hk ⊢
+        simp only [validName, Bool.and_eq_true, List.all_eq_true] at hk
+        intro x hx
+        rcases List.mem_cons.mp hx with rfl | hx
+        · simp [isNameCont, hk.1]
+        · exact hk.2 x hx
+      have hspan := spanName_append k.toList (':' :: ' ' :: (s.toList ++ sepTail ps ('}' :: rest))) hall
+        (by intro x hx; simp at hx; subst hx; decide)
+      have hso := startOk_nameStart hstart
+      rw [htxt, parseFields, hkc, List.cons_append, skipIgnored_cons_of_not hso.1]
+      simp only [hso.2.2, if_false, hstart, if_true]
+      rw [← List.cons_append, ← hkc, hspan]
+      simp only
+      rw [skipIgnored_cons_of_not (by decide)]
+      simp only [show (':' : Char).toNat = 58 from rfl, if_true]
+      rw [parseLit_skip1, hv]
+      simp only
+      rw [parseFields_sepTail, hrest]
+      simp [litOfFields]
+end
+
+
 end ApiFu.C10
